@@ -24,8 +24,8 @@ CLAIMS = {
    note=TRUST + "The full equality 'cached result == uncached result for every history' composes these clauses with R-reg (frozen tables) by a meta-argument; route identity differs (the cache holds copies), as documented.",
    design="6/C07"),
  "C15": dict(
-   text="Contract proof of the name index: appendRoute stores a named route under its name and leaves every other name untouched, NamedTo does the same for the trimmed name, GetRoute returns the index entry (so the most recently registered route of a name wins).",
-   note=TRUST + "The build-then-route round trip (BuildURL/ToURL/BuildRequestURL.Build against the run-time regexp) is not decided deductively: bounded stand-in bounded/urlround (labelled bounded); one known finding (trailing white space of the last value is trimmed by the lookup normalisation).",
+   text="Contract proof of the name index: appendRoute stores a named route under its name and leaves every other name untouched, NamedTo does the same for the trimmed name, GetRoute returns the index entry (so the most recently registered route of a name wins). Contract proof of the URL builder: Route.ToURL builds on the route's own path and routes its arguments (the caller's builder is the one built on; an M argument or the key/value pairs become the parameter map; other shapes and odd counts panic); BuildRequestURL.Build, for every parameter map and every iteration order of its two map ranges (three loop invariants), adds every key without braces to the query values (as the last value of that key), stores every key with braces as a parameter, keeps all other parameters, maps every variable occurrence found in the path to its brace name, and hands the replacer exactly one pair per occurrence that replaces it by the string form of the parameter stored under that name, in a single pass.",
+   note=TRUST + "What strings.Replacer, url.Values.Encode, goutil.String and the regexp produce is outside the contracts (uninterpreted), so that the built path, requested, is dispatched back to the route with the same values is not decided deductively: bounded stand-in bounded/urlround (labelled bounded); one known finding (trailing white space of the last value is trimmed by the lookup normalisation). Build and ToURL are allowed to panic (nil maps of a caller-supplied builder).",
    design="6/C15"),
  "C16": dict(
    text="Contract proof of the registration callback of Resource for EVERY method set of the controller (reflection modelled as uninterpreted functions of the controller value, so the method set is arbitrary) and every iteration order of the action table (bijection model of map range): a loop invariant over the log of accepted routes (ghost regCount/regAt, appended by appendRoute) proves that each implemented action is registered once under the name <res>_<action> with its own method value as handler, the documented path shape, exactly the methods of its RESTFulActions row and - besides the group middleware - only the handlers Uses() lists for that action, and that nothing else is registered; AddNamed, NewNamedRoute, formatMethods, AddRoute and appendRoute carry the clauses; Resource itself is proved to reject a non-pointer or non-struct controller.",
